@@ -118,7 +118,7 @@ fn gen_history(rng: &mut Rng, max_deg: usize) -> Vec<Op> {
                 };
                 Op::Ints(k, j, nonce)
             },
-            _ => Op::Pow(if rng.bool() { rng.below(4096) } else { rng.u64() }),
+            _ => Op::Pow(match rng.usize(6) { 0 => 0, 1 => u64::MAX - 3, 2 | 3 => rng.below(4096), _ => rng.u64() }),
         })
         .collect()
 }
